@@ -28,13 +28,14 @@ type iterFam struct {
 	recurBeforeSlot bool
 	body            []bodyStmt // kind "gen"
 	hasK            bool       // kind "gen": the body declares |i, k: 7|
+	hasJ            bool       // kind "gen": the body declares a second positional parameter j
 }
 
 func (f iterFam) source() string {
 	s, l, d := f.slot, f.lim, f.step
 	switch f.kind {
 	case "gen":
-		return genSource(f.body, f.hasK)
+		return genSource(f.body, f.hasK, f.hasJ)
 	case "guard":
 		return fmt.Sprintf("<{|i| S(%d); yield i if i < %d; recur(i + %d)}>", s, l, d)
 	case "noguard":
@@ -89,7 +90,10 @@ type bodyStmt struct {
 	d         int64  // recur(i + d)
 	kmode     string // recur, bodies with the keyword parameter k: "omit", "carry", "nil", "const", "flip"
 	kconst    int64
-	useK      bool // yield: the value adds (1000 if k == nil else k)
+	useK      bool   // yield: the value adds (1000 if k == nil else k)
+	jmode     string // recur, bodies with a second positional parameter j: "omit" (-> nil), "carry", "const"
+	jconst    int64
+	useJ      bool // yield: the value adds (2000 if j == nil else j)
 }
 
 // kState is the keyword argument `k` of a generated body that declares `|i, k: 7|`.
@@ -107,7 +111,7 @@ func (k kState) term() int64 {
 	return k.v
 }
 
-func genBody(t *tape.Tape, base int, hasK bool) []bodyStmt {
+func genBody(t *tape.Tape, base int, hasK, hasJ bool) []bodyStmt {
 	var b []bodyStmt
 	id := base
 	n := 2 + t.Intn(4)
@@ -134,6 +138,7 @@ func genBody(t *tape.Tape, base int, hasK bool) []bodyStmt {
 				y.guardSlot = id
 			}
 			y.useK = hasK && t.Chance(2, 3)
+			y.useJ = hasJ && t.Chance(2, 3)
 			b = append(b, y)
 			haveYield = true
 		default:
@@ -141,6 +146,10 @@ func genBody(t *tape.Tape, base int, hasK bool) []bodyStmt {
 			if hasK {
 				r.kmode = []string{"omit", "carry", "nil", "const", "flip"}[t.Intn(5)]
 				r.kconst = int64(2 + t.Intn(5))
+			}
+			if hasJ {
+				r.jmode = []string{"omit", "carry", "const"}[t.Intn(3)]
+				r.jconst = int64(30 + t.Intn(5))
 			}
 			b = append(b, r)
 			haveRecur = true
@@ -155,12 +164,16 @@ func genBody(t *tape.Tape, base int, hasK bool) []bodyStmt {
 			r.kmode = []string{"omit", "carry", "nil", "const", "flip"}[t.Intn(5)]
 			r.kconst = int64(2 + t.Intn(5))
 		}
+		if hasJ {
+			r.jmode = []string{"omit", "carry", "const"}[t.Intn(3)]
+			r.jconst = int64(30 + t.Intn(5))
+		}
 		b = append(b, r)
 	}
 	return b
 }
 
-func genSource(b []bodyStmt, hasK bool) string {
+func genSource(b []bodyStmt, hasK, hasJ bool) string {
 	var parts []string
 	for _, st := range b {
 		switch st.kind {
@@ -173,6 +186,9 @@ func genSource(b []bodyStmt, hasK bool) string {
 			}
 			if st.useK {
 				v = "(" + v + " + (1000 if k == nil else k))"
+			}
+			if st.useJ {
+				v = "(" + v + " + (2000 if j == nil else j))"
 			}
 			y := "yield " + v
 			if st.guard != "" {
@@ -195,13 +211,24 @@ func genSource(b []bodyStmt, hasK bool) string {
 			case "flip":
 				kw = fmt.Sprintf(", k: (%d if k == nil else nil)", st.kconst)
 			}
-			parts = append(parts, fmt.Sprintf("recur(i + %d%s)", st.d, kw))
+			pos := ""
+			switch st.jmode {
+			case "carry":
+				pos = ", j"
+			case "const":
+				pos = fmt.Sprintf(", %d", st.jconst)
+			}
+			parts = append(parts, fmt.Sprintf("recur(i + %d%s%s)", st.d, pos, kw))
 		}
 	}
-	if hasK {
-		return fmt.Sprintf("<{|i, k: %d| ", genKDefault) + strings.Join(parts, "; ") + "}>"
+	params := "i"
+	if hasJ {
+		params += ", j"
 	}
-	return "<{|i| " + strings.Join(parts, "; ") + "}>"
+	if hasK {
+		params += fmt.Sprintf(", k: %d", genKDefault)
+	}
+	return "<{|" + params + "| " + strings.Join(parts, "; ") + "}>"
 }
 
 // genNext is one `next` of a generated body with argument i: every statement is evaluated
@@ -209,8 +236,8 @@ func genSource(b []bodyStmt, hasK bool) string {
 // first yield reached supplies the value; the most recent recur supplies the next argument
 // (also when the activation ends in an error afterwards). faultIdx: the slot invocation
 // (counted within this activation) that raises, or -1.
-func genNext(b []bodyStmt, i int64, k kState, faultIdx int) (val int64, stop, errored bool, ni int64, nk kState, trace []int) {
-	ni, nk = i, k
+func genNext(b []bodyStmt, i int64, k, j kState, faultIdx int) (val int64, stop, errored bool, ni int64, nk, nj kState, trace []int) {
+	ni, nk, nj = i, k, j
 	yielded := false
 	call := func(id int) bool {
 		trace = append(trace, id)
@@ -220,32 +247,47 @@ func genNext(b []bodyStmt, i int64, k kState, faultIdx int) (val int64, stop, er
 		switch st.kind {
 		case "slot":
 			if call(st.slot) {
-				return 0, false, true, ni, nk, trace
+				return 0, false, true, ni, nk, nj, trace
 			}
 		case "yield":
 			if st.guard != "" {
 				if st.guardSlot > 0 && call(st.guardSlot) {
-					return 0, false, true, ni, nk, trace
+					return 0, false, true, ni, nk, nj, trace
 				}
 				ok := i < st.glim
 				if st.guard == ">=" {
 					ok = i >= st.glim
 				}
 				if !ok {
-					return 0, true, false, ni, nk, trace
+					return 0, true, false, ni, nk, nj, trace
 				}
 			}
 			if st.valSlot > 0 && call(st.valSlot) {
-				return 0, false, true, ni, nk, trace
+				return 0, false, true, ni, nk, nj, trace
 			}
 			if !yielded {
 				yielded, val = true, i*st.mul+st.add
 				if st.useK {
 					val += k.term()
 				}
+				if st.useJ {
+					if j.isNil {
+						val += 2000
+					} else {
+						val += j.v
+					}
+				}
 			}
 		default:
 			ni = i + st.d
+			switch st.jmode {
+			case "omit":
+				nj = kState{isNil: true} // a positional parameter recur does not supply is nil
+			case "carry":
+				nj = j
+			case "const":
+				nj = kState{v: st.jconst}
+			}
 			switch st.kmode {
 			case "omit":
 				nk = kState{v: genKDefault} // not given: the declared default
@@ -264,7 +306,7 @@ func genNext(b []bodyStmt, i int64, k kState, faultIdx int) (val int64, stop, er
 			}
 		}
 	}
-	return val, false, false, ni, nk, trace
+	return val, false, false, ni, nk, nj, trace
 }
 
 func traceIDs(r harness.Result) []int {
@@ -281,6 +323,7 @@ type iterState struct {
 	step int64
 	j    string // second argument (Inspect text; "nil" when not given)
 	k    kState // keyword argument of generated bodies
+	jj   kState // second positional argument of generated bodies
 }
 
 // step models one `next`: value, stop?, and the successor state. fault: the slot raises.
@@ -469,7 +512,8 @@ func (c *c14Check) Run(seed, run uint64, rec []uint32, st Stats, only *Viol) []V
 		f.recurBeforeSlot = k == "slotafterrecur"
 		if k == "gen" {
 			f.hasK = t.Chance(1, 3)
-			f.body = genBody(t, 100*(i+1), f.hasK)
+			f.hasJ = t.Chance(1, 3)
+			f.body = genBody(t, 100*(i+1), f.hasK, f.hasJ)
 		}
 		fams[i] = f
 		s.Families[k]++
@@ -531,7 +575,7 @@ func (c *c14Check) Run(seed, run uint64, rec []uint32, st Stats, only *Viol) []V
 			name := fmt.Sprintf("h%d", t.Intn(4))
 			arg := int64(t.Intn(5))
 			line := fmt.Sprintf("%s := g%d.new(%d)", name, fi, arg)
-			stt := iterState{fam: fi, i: arg, step: f.step, j: "nil", k: kState{v: genKDefault}}
+			stt := iterState{fam: fi, i: arg, step: f.step, j: "nil", k: kState{v: genKDefault}, jj: kState{isNil: true}}
 			if f.kind == "twoparam" && t.Chance(1, 2) {
 				stt.j = fmt.Sprint(40 + t.Intn(9))
 				line = fmt.Sprintf("%s := g%d.new(%d, %s)", name, fi, arg, stt.j)
@@ -539,15 +583,23 @@ func (c *c14Check) Run(seed, run uint64, rec []uint32, st Stats, only *Viol) []V
 			if f.kind == "argvars" && t.Chance(1, 2) {
 				line = fmt.Sprintf("%s := g%d.new(%d, %d)", name, fi, arg, 40+t.Intn(9))
 			}
-			if f.hasK {
-				switch t.Intn(3) {
-				case 1:
-					stt.k = kState{v: int64(20 + t.Intn(5))}
-					line = fmt.Sprintf("%s := g%d.new(%d, k: %d)", name, fi, arg, stt.k.v)
-				case 2:
-					stt.k = kState{isNil: true}
-					line = fmt.Sprintf("%s := g%d.new(%d, k: nil)", name, fi, arg)
+			if f.kind == "gen" && (f.hasK || f.hasJ) {
+				pos, kw := "", ""
+				if f.hasJ && t.Chance(1, 2) {
+					stt.jj = kState{v: int64(50 + t.Intn(5))}
+					pos = fmt.Sprintf(", %d", stt.jj.v)
 				}
+				if f.hasK {
+					switch t.Intn(3) {
+					case 1:
+						stt.k = kState{v: int64(20 + t.Intn(5))}
+						kw = fmt.Sprintf(", k: %d", stt.k.v)
+					case 2:
+						stt.k = kState{isNil: true}
+						kw = ", k: nil"
+					}
+				}
+				line = fmt.Sprintf("%s := g%d.new(%d%s%s)", name, fi, arg, pos, kw)
 			}
 			if f.kw && t.Chance(1, 2) {
 				stt.step = int64(1 + t.Intn(3))
@@ -577,7 +629,7 @@ func (c *c14Check) Run(seed, run uint64, rec []uint32, st Stats, only *Viol) []V
 				fail("new-from-handle", f.kind, "error", "an iterator", describe(r))
 				break
 			}
-			handles = append(handles, iterState{fam: h.fam, i: arg, step: f.step, j: "nil", k: kState{v: genKDefault}})
+			handles = append(handles, iterState{fam: h.fam, i: arg, step: f.step, j: "nil", k: kState{v: genKDefault}, jj: kState{isNil: true}})
 			bind(name, len(handles)-1)
 		case 2: // next, possibly with the body's slot raising
 			name := pickName()
@@ -605,8 +657,8 @@ func (c *c14Check) Run(seed, run uint64, rec []uint32, st Stats, only *Viol) []V
 				break
 			}
 			if f.kind == "gen" {
-				val, stop, errored, ni, nk, trace := genNext(f.body, h.i, h.k, faultIdx)
-				h.i, h.k = ni, nk
+				val, stop, errored, ni, nk, nj, trace := genNext(f.body, h.i, h.k, h.jj, faultIdx)
+				h.i, h.k, h.jj = ni, nk, nj
 				handles[hi] = h
 				if got := traceIDs(r); fmt.Sprint(got) != fmt.Sprint(trace) {
 					fail("next", f.kind, "evalcount", fmt.Sprintf("callee invocations %v (every statement of the body once, up to the one that ends the activation)", trace), fmt.Sprintf("%v; result %s", got, describe(r)))
@@ -659,16 +711,16 @@ func (c *c14Check) Run(seed, run uint64, rec []uint32, st Stats, only *Viol) []V
 			var genVals []int64
 			var genTrace []int
 			if f.kind == "gen" {
-				cur, curK := h.i, h.k
+				cur, curK, curJ := h.i, h.k, h.jj
 				for k := 0; k < 40; k++ {
-					v, stop, _, ni, nk, tr := genNext(f.body, cur, curK, -1)
+					v, stop, _, ni, nk, nj, tr := genNext(f.body, cur, curK, curJ, -1)
 					genTrace = append(genTrace, tr...)
 					if stop {
 						genFinite = true
 						break
 					}
 					genVals = append(genVals, v)
-					cur, curK = ni, nk
+					cur, curK, curJ = ni, nk, nj
 				}
 			}
 			if (f.kind == "gen" && !genFinite) || (f.kind != "gen" && !f.finite()) {
